@@ -159,25 +159,22 @@ def pyFloat : Val → R Val
 
 /-! ### union branch choice (`write_union`) -/
 
-def unwrapRef (env : Env) (s : Schema) : Schema :=
-  match s with
-  | .ref n => (env.get? n).getD s
-  | s => s
-
-def dictKeys (kv : List (Val × Val)) : List String :=
-  kv.filterMap fun (k, _) => match k with | .str s => some s | _ => none
-
-/-- `len(candidate_fields & datum_fields)` -/
-def sharedFields (fs : List Field) (kv : List (Val × Val)) : Nat :=
-  let keys := dictKeys kv
-  ((fs.map Field.name).eraseDups.filter keys.contains).length
-
 /-- scan state of the un-hinted loop -/
 structure Scan where
   best : Option Nat := none
   most : Int := -1
   couldBeFloat : Bool := false
   done : Bool := false
+
+/-- what the loop body does once `_validate(datum, candidate, …)` returned True -/
+def scanUpdate (env : Env) (v : Val) (st : Scan) (idx : Nat) (c : Schema) : Scan :=
+  match unwrapRef env c with
+  | .record _ fs _ =>
+    let n : Int := sharedCount fs v
+    if n > st.most then { st with best := some idx, most := n } else st
+  | c' =>
+    if c'.typeName == "float" then { st with best := some idx, couldBeFloat := true }
+    else { st with best := some idx, done := true }
 
 /-- one iteration of `for index, candidate in enumerate(schema)` -/
 def scanStep (fuel : Nat) (env : Env) (o : WOpts) (v : Val) (st : Scan) (idx : Nat) (c : Schema) :
@@ -187,15 +184,7 @@ def scanStep (fuel : Nat) (env : Env) (o : WOpts) (v : Val) (st : Scan) (idx : N
     if c.typeName == "double" then pure { st with best := some idx, done := true } else pure st
   else do
     let ok ← Validate.validate fuel env o.toV false "" c (some v)
-    if !ok then pure st else
-    let c' := unwrapRef env c
-    match c' with
-    | .record _ fs _ =>
-      let n : Int := match v with | .dict kv => sharedFields fs kv | _ => 0
-      if n > st.most then pure { st with best := some idx, most := n } else pure st
-    | _ =>
-      if c'.typeName == "float" then pure { st with best := some idx, couldBeFloat := true }
-      else pure { st with best := some idx, done := true }
+    if !ok then pure st else pure (scanUpdate env v st idx c)
 
 def scan (fuel : Nat) (env : Env) (o : WOpts) (v : Val) : Scan → Nat → List Schema → R Scan
   | st, _, [] => pure st
@@ -209,7 +198,7 @@ def choose (fuel : Nat) (env : Env) (o : WOpts) (bs : List Schema) (v : Val) : R
   | .tuple xs, false =>
     match xs with
     | [nameV, inner] =>
-      let i := bs.findIdx fun b => match nameV with | .str n => n == b.hintName | _ => false
+      let i := bs.findIdx fun b => nameV.strEq b.hintName
       if i < bs.length then pure (i, inner) else throw .value
     | _ => throw .value
   | _, _ => do
